@@ -535,6 +535,23 @@ Theorem gen_variants :
         = Some (log ++ [adup_x1 stepsize o x d])%list).
 Proof. exact (conj gen_variant_shapes (conj gen_kz_noproj_step (conj gen_kz_cbinner_step gen_adup_cbinner_step))). Qed.
 Print Assumptions gen_variants.
+
+(* Bounded instance (an Example, not a property theorem): one whole outer iteration of the two
+   generated adupdates programs on ONE heap with two operators whose ranges are equal, so that they
+   share the single temporary "tmp#0" (list slots are names; entering the inner loop body for index j
+   binds duals[j] / tmp_rans[L[j].range] to the objects in the slots and leaving it stores the
+   bindings back).  All vectors and operators are symbolic.  Both programs leave in the caller's x
+   and in the two dual slots what the model's ad_opt_step computes. *)
+Example gen_adupdates_two_operators_shared_temporary :
+  forall (stepsize : R) (o0 o1 : @adop R) (junk : string -> list R),
+  ad_inner_v o0 = None -> ad_inner_v o1 = None ->
+  forall x d0 d1 t : list R, ad_key o0 = 0%nat -> ad_key o1 = 0%nat ->
+  let '(xf, ds, _) := ad_opt_step stepsize [o0; o1] (x, [d0; d1], [t]) in
+  proj_state (run_outer stepsize o0 o1 junk (fun _ => "tmp#0") adupdates_outer (heap_shared x d0 d1 t))
+  = Some (Some xf, nth_error ds 0, nth_error ds 1, [xf])
+  /\ proj_state (run_outer stepsize o0 o1 junk (fun _ => "tmp#0") adupdates_simple_outer (heap_shared x d0 d1 t))
+     = Some (Some xf, nth_error ds 0, nth_error ds 1, []).
+Proof. exact gen_adup2_shared. Qed.
 Local Close Scope string_scope.
 
 (* ------------------------------------------------------------ non-vacuity *)
